@@ -1,6 +1,6 @@
 (* Case interpreter used by the extracted OCaml driver and by the in-kernel
    cross-check: one ASCII case line in, one canonical result line out. *)
-From BL Require Import Base.Prelude Base.Floats Base.Decimal Mach.Val Mach.Ops Mach.Func Mach.Var Lang.Token Lang.Lex Lang.Ast Lang.Parse Mach.Compile Mach.Listing Mach.Runtime Drv.Show Drv.ShowLang Drv.Session.
+From BL Require Import Base.Prelude Base.Floats Base.Decimal Mach.Val Mach.Ops Mach.Func Mach.Var Lang.Token Lang.Lex Lang.Ast Lang.Parse Mach.Compile Mach.Listing Mach.Runtime Spec.Sem Drv.Show Drv.ShowLang Drv.Session.
 From Coq Require Import String.
 Local Open Scope N_scope.
 
@@ -111,6 +111,8 @@ Definition run_case (O : oracle) (line : str) : str :=
       else s2l "?"
   | kind :: name :: a :: b :: [] =>
       if is kind "session" then run_session O [name; a; b] else
+      if is kind "sem" then sem_case O (map str_of_hex (split_on 44 name [])) (str_eqb a [49])
+                                     (match b with [45] => [] | _ => map str_of_hex (split_on 44 b []) end) else
       if is kind "op2" then show_res show_val (run_op2 O name (parse_val a) (parse_val b))
       else if is kind "opn" then show_res show_val (run_opn O name [parse_val a; parse_val b])
       else s2l "?"
